@@ -148,6 +148,23 @@ Proof.
   - apply IHChain. assumption.
 Qed.
 
+(* FLUSH: what finish() announces is first the output that was held back - each
+   PROCESS_LOG with the pid the child had - and only then the state changes of the reap *)
+Theorem finish_flush_order : forall p held es tq ee now,
+  exists out,
+    finish_with_output p held es tq ee now
+    = map (fun h => (fst h, ALog (p_name p) (p_group p) (p_pid p) (DBytes (snd h)))) held ++ out /\
+    (forall c a, In (c, a) out -> exists from bo, a = AState (p_name p) (p_group p) from (extra_values c bo ee (p_pid p))).
+Proof.
+  intros p held es tq ee now. unfold finish_with_output, flush_events.
+  pose proof (finish_snapshot p es tq ee now) as F.
+  destruct (finish p es tq ee now) as [p' out|p' out]; exists out; (split; [reflexivity|]).
+  - destruct F as (_ & _ & _ & Ch). intros c a Hin. destruct (chain_pid _ _ _ _ _ _ _ _ Ch c a Hin) as [from E].
+    exists from, (p_backoff p'). exact E.
+  - destruct F as (_ & Ch). intros c a Hin. destruct (chain_pid _ _ _ _ _ _ _ _ Ch c a Hin) as [from E].
+    exists from, (p_backoff p'). exact E.
+Qed.
+
 (* ------------------------------------------------------------ histories *)
 
 Definition step_expected (s : pstep) : bool :=
